@@ -1012,6 +1012,13 @@ class World:
                 es, rr = node.exit_sockets.get(e["rcid"]), node.relay_from_to.get(e["rcid"])
                 held = [x.hop.keys for x in (es, rr) if x is not None]
                 want = self._fp(c.hops[k - 1].keys)
+                if held and k == len(c.hops) and c.state == self.tn.CIRCUIT_STATE_READY and es is None:
+                    ctx.oracle_fail("TunnelCommunity.on_created:last-hop-turned-into-relay",
+                                    f"circuit {cid} is READY with {k} hop(s), yet its last hop's entry at the selected "
+                                    "peer was converted into a relay route towards another node (nobody the originator "
+                                    "selected): an established hop was changed",
+                                    self.replay_of("last hop of a ready circuit turned into a relay"))
+                    continue
                 if not held or any(self._fp(x) != want for x in held):
                     ctx.oracle_fail("TunnelCommunity.join_circuit:established-hop-rekeyed-at-responder",
                                     f"hop {k} of circuit {cid}: the selected peer no longer holds the session keys the "
@@ -1125,7 +1132,9 @@ class World:
             self._record(line, f"[{outs}] | " + self.state_s(idx))
         return answer_calls, handled
 
-    async def deliver(self, h: Held, data: bytes | None = None, src=None, note: str = ""):
+    async def deliver(self, h: Held, data: bytes | None = None, src=None, note: str = "", tight: bool = False):
+        """hand one datagram to its node and let the node settle; `tight`: only ONE event-loop iteration passes before the
+        step ends (the next datagram is the next thing in the socket buffer), instead of letting every task finish"""
         self.step_no += 1
         self.calls, self.sent = [], []
         before = self.snapshot()
@@ -1138,7 +1147,11 @@ class World:
         except Exception as e:  # noqa: BLE001
             self.raised += 1
             self.ctx.count(f"deliver-raised:{type(e).__name__}")
-        await self.settle()
+        if tight:
+            self.ctx.count("schedule:next-datagram-after-one-loop-iteration")
+            await asyncio.sleep(0)
+        else:
+            await self.settle()
         answer_calls, handled = self._post()
         self.classify_after_accept()
         if h.dst not in handled:
@@ -2055,6 +2068,120 @@ async def sc_raw_inject(ctx, rng, desc, hops, when):
         await w.close()
 
 
+async def sc_id_reuse(ctx, rng, desc, variant):
+    """a misbehaving relay P re-uses a circuit id at its neighbour R: P's own circuit c ends at R, P asks R to extend it to
+    a slow node X, destroys c, and later gives the SAME id c to the hop of an honest originator that extends through P
+    to R; then X's late CREATED (answer to the extend of the dead circuit) reaches R"""
+    w = await build_world(ctx, rng, desc)
+    try:
+        p_idx = rng.choice([1, 2, 3])
+        exits = [i for i, fl in enumerate(w.flags) if w.tn.PEER_FLAG_EXIT_BT in fl]
+        r_idx = rng.choice(exits)
+        x_idx = rng.choice([i for i in range(1, len(w.nodes)) if i not in (p_idx, r_idx)])
+        pov, rov, ov = w.nodes[p_idx].overlay, w.nodes[r_idx].overlay, w.nodes[0].overlay
+        R, P, X = w.nodes[r_idx].my_peer, w.nodes[p_idx].my_peer, w.nodes[x_idx].my_peer
+        c = pov._generate_circuit_id()
+        w.track(p_idx, [c])
+        w.track(r_idx, [c])
+
+        def mk():
+            circ = w.tn.Circuit(c, 1, required_exit=R)
+            pov.circuits[c] = circ
+            pov.send_initial_create(circ, [R], 6)
+            return circ
+        pc = await w.api(mk, lambda _: f"{p_idx} cc {c} 1 {r_idx + 1} [{r_idx + 1}] {w.env_s(p_idx, c)}")
+        await run_fifo(w, 40)
+        if variant == "after-reservation":
+            await w.advance(w.life_created - 8.0)          # the extend is sent late, shortly before R's reservation ends
+        # P (owner of c) asks R to extend c to X; X is slow
+        w.tampered = True
+        xk = w.new_attacker_key()
+        ident = rng.randrange(0xFFFF)
+        lookups = []
+        named = X.public_key.key_to_bin()
+        if variant == "pending-lookup":
+            # R's DHT provider really awaits (a lookup takes time): on_extend for a peer R has never heard of is
+            # suspended in dht_peer_lookup; the model has no suspended on_extend, so R is not compared in this variant
+            class SlowDHT:
+                async def peer_lookup(self, mid, peer=None):
+                    fut = asyncio.get_running_loop().create_future()
+                    lookups.append(fut)
+                    await fut
+            rov.dht_provider = SlowDHT()
+            w.adversaries.add(r_idx)
+            named = w.new_attacker_key().pub().key_to_bin()
+        await w.api(lambda: pov.send_cell(pc.hop.address, w.pl.ExtendPayload(c, ident, named,
+                                                                        xk.get_crypt_pk(), X.address)), lambda _: None)
+        slow = []
+
+        async def hold_x(h: Held):
+            if h.kind == 3 and h.dst == r_idx and h.from_idx == x_idx and not slow:
+                slow.append(h)
+                return "handled"
+            return None
+        await run_fifo(w, 40, hold_x)
+        # P destroys c: R drops its exit socket
+        def destroy():
+            pov.remove_circuit(c, "done", remove_now=True, destroy=w.tn.DESTROY_REASON_UNNEEDED)
+        await w.api(destroy, lambda _: f"{p_idx} remove {c}")
+        gone = [False]
+
+        def sync_removed():
+            if not gone[0] and c not in rov.exit_sockets:
+                gone[0] = True
+                w._record(f"{r_idx} removeexit {c}", "[] | " + w.state_s(r_idx))
+                ctx.count("id-reuse:exit-socket-destroyed")
+        sync_removed()
+        if variant in ("after-reservation", "pending-lookup") and not gone[0]:
+            await w.advance(float(rov.settings.remove_tunnel_delay) + 0.05)
+            sync_removed()
+        if variant == "after-reservation":
+            if not gone[0]:
+                # remove_tunnel_delay: the destroyed socket lingers; tell the model as soon as it is gone
+                waited = float(rov.settings.remove_tunnel_delay) + 0.05
+                await w.advance(waited)
+                sync_removed()
+            else:
+                waited = 0.0
+            # R's created cache for c runs out (the create cache of the pending extend lives on)
+            await w.advance(max(0.5, 8.6 - waited))
+        # the honest originator's hop O -> P -> R gets the same id c from P
+        pov._generate_circuit_id = lambda: c
+        # from here on the model cannot follow R: it compares peers by key, the code by object identity
+        w.adversaries.add(r_idx)
+        cid_o = ov._generate_circuit_id()
+        w.track(0, [cid_o])
+
+        def mk_o():
+            circ = w.tn.Circuit(cid_o, 2, required_exit=R)
+            ov.circuits[cid_o] = circ
+            ov.send_initial_create(circ, [P], 6)
+            return circ
+        await w.api(mk_o, lambda _: f"0 cc {cid_o} 2 {r_idx + 1} [{p_idx + 1}] {w.env_s(0, cid_o)}")
+        await run_fifo(w, 80, hold_x)
+        if lookups:
+            # the lookup of the dead circuit's extend completes now: on_extend resumes
+            ctx.count("id-reuse:suspended-on_extend-resumed")
+            w.step_no += 1
+            before = w.snapshot()
+            for f in lookups:
+                if not f.done():
+                    f.set_result(None)
+            await w.settle()
+            w.oracle_after(before, [])
+            await run_fifo(w, 80)
+        co = ov.circuits.get(cid_o)
+        ctx.count("id-reuse:victim-" + ("ready" if co is not None and co.state == w.tn.CIRCUIT_STATE_READY else "not-ready"))
+        for h in slow:
+            ctx.count("id-reuse:late-created-of-dead-circuit")
+            await w.deliver(h)
+        await run_fifo(w, 80)
+        await w.finish()
+        return w
+    finally:
+        await w.close()
+
+
 async def sc_cross(ctx, rng, desc, hops, variant):
     """two circuits built at once; the first answers are exchanged between them (circuit id only / id + identifier)"""
     w = await build_world(ctx, rng, desc)
@@ -2272,6 +2399,20 @@ async def sc_relay_late(ctx, rng, desc, hops, pos):
                     return "handled"
                 return None
             await run_fifo(w, 80, until_created)
+        elif moment == "back-to-back" and held:
+            # the new candidate's CREATED and the late one of the first candidate are neighbours in the relay's socket
+            # buffer: exactly one loop iteration lies between them
+            seen = [0]
+
+            async def tight_pair(h: Held):
+                if h.kind == 3 and h.dst != 0 and not seen[0]:
+                    seen[0] = 1
+                    await w.deliver(h, tight=True)
+                    await w.deliver(held[0], tight=True)
+                    await w.settle()
+                    return "handled"
+                return None
+            await run_fifo(w, 80, tight_pair)
         else:
             await run_fifo(w, 80)
             if held:
@@ -2384,6 +2525,10 @@ def scenario_list(ctx: Ctx, tier: str):
             for v in ("bad-only", "relays-then-bad", "bad-relay", "empty", "only-me", "garbage-bytes"):
                 out.append({"k": "bad-candidates", "hops": hops, "pos": pos, "variant": v})
         out.append({"k": "flags", "extra_nodes": True, "n": hops})
+        out.append({"k": "id-reuse", "variant": "after-reservation", "n": hops, "rtd": 0})
+        out.append({"k": "id-reuse", "variant": "after-reservation", "n": hops, "rtd": None})
+        out.append({"k": "id-reuse", "variant": "at-once", "n": hops})
+        out.append({"k": "id-reuse", "variant": "pending-lookup", "n": hops, "hidden": hops != 2})
         for when in ("fresh", "after-expiry"):
             out.append({"k": "raw-inject", "hops": hops, "when": when, "dual": [1, 2, 3, 4, 5]})
             out.append({"k": "raw-inject", "hops": hops, "when": when})
@@ -2420,7 +2565,7 @@ def scenario_list(ctx: Ctx, tier: str):
         for v in ("creates-only", "to-joined", "all", "shuffled", "early-and-late", "two-circuits"):
             out.append({"k": "replay-expired", "hops": hops, "variant": v})
         for pos in range(2, hops + 1):
-            for moment in ("after-ready", "before-retry-answer", "after-delay"):
+            for moment in ("after-ready", "before-retry-answer", "after-delay", "back-to-back"):
                 for rtd in (0, None):
                     for hidden in (False, True):
                         out.append({"k": "relay-late", "hops": hops, "pos": pos, "moment": moment, "rtd": rtd,
@@ -2475,6 +2620,8 @@ async def run_scenario(ctx, d: dict, sub_seed: int):
         return await sc_third_party_extend(ctx, rng, desc, d["order"])
     if k == "raw-inject":
         return await sc_raw_inject(ctx, rng, desc, d["hops"], d["when"])
+    if k == "id-reuse":
+        return await sc_id_reuse(ctx, rng, desc, d["variant"])
     if k == "flags":
         return await sc_flags(ctx, rng, desc)
     if k == "id-squat":
@@ -2568,6 +2715,8 @@ REQUIRED_BRANCHES = [
     "accept:genuine", "accept:non-genuine-material", "tampered:no", "tampered:yes", "e2e:probe",
     "overlay-class:TunnelCommunity", "overlay-class:HiddenTunnelCommunity",
     "raw-cell:UDPIPv4:dropped", "raw-cell:UDPIPv6:dropped", "raw-cell:single:dropped",
+    "schedule:next-datagram-after-one-loop-iteration",
+    "id-reuse:exit-socket-destroyed", "id-reuse:late-created-of-dead-circuit", "id-reuse:suspended-on_extend-resumed",
 ]
 # listed in the design but NOT required: unreachable behind the Python dispatcher / after fix 4ca5f25
 UNREACHABLE_BRANCHES = ["branch:on_create:id-in-use-relay", "branch:answer:no-unverified-hop"]
